@@ -15,6 +15,7 @@
 import Algobra.Model.Tables
 import Algobra.Proofs.Assemble
 import Algobra.Proofs.Strings
+import Mathlib.Data.List.Induction
 
 namespace Algobra
 namespace Tables
@@ -217,5 +218,235 @@ theorem primeOpsT_agree {p : Nat} (hp : 0 < p) (addTab mulTab : Bool) :
 
 end Prime
 
+/-! ## 3. the Go map of `newLogTable` -/
+
+open LogT
+
+theorem find_none_of_any_false (m : List (String × Nat)) (k : String)
+    (h : (m.any (·.1 == k)) = false) : m.find? (·.1 == k) = none := by
+  rw [List.find?_eq_none]
+  intro x hx
+  have := List.any_eq_false.1 h x hx
+  simpa using this
+
+theorem mapGet_upd (m : List (String × Nat)) (k k' : String) (v : Nat) :
+    mapGet (m.map fun (k'', x) => if k'' == k then (k'', v) else (k'', x)) k'
+      = if k' = k then (if m.any (·.1 == k) then v else 0) else mapGet m k' := by
+  induction m with
+  | nil => simp [mapGet]
+  | cons x t ih =>
+    obtain ⟨kx, vx⟩ := x
+    unfold mapGet at ih ⊢
+    by_cases hk : kx = k
+    · subst hk
+      by_cases hk' : k' = kx
+      · subst hk'; simp
+      · have : ¬ kx = k' := fun h => hk' h.symm
+        simp [hk', this] at ih ⊢
+        exact ih
+    · by_cases hk' : k' = k
+      · subst hk'
+        have hb : (kx == k') = false := by simpa using hk
+        rw [List.any_cons, hb, Bool.false_or]
+        simp [hk] at ih ⊢
+        exact ih
+      · by_cases hx : kx = k'
+        · subst hx; simp [hk]
+        · simp [hk, hk', hx] at ih ⊢
+          exact ih
+
+theorem mapGet_mapSet (m : List (String × Nat)) (k k' : String) (v : Nat) :
+    mapGet (mapSet m k v) k' = if k' = k then v else mapGet m k' := by
+  unfold mapSet
+  split
+  · next h => rw [mapGet_upd, h]; simp
+  · next h =>
+    have h' := find_none_of_any_false m k (Bool.eq_false_iff.2 h)
+    unfold mapGet
+    rw [List.find?_append]
+    by_cases hk : k' = k
+    · subst hk; simp [h']
+    · have : ¬ k = k' := fun h => hk h.symm
+      cases hf : m.find? (·.1 == k') <;> simp [hk, this]
+
+/-- the map built by the loop of `newLogTable` sends the key of the `i`-th entry to `i` when the
+    keys are pairwise different -/
+theorem mapGet_build {α : Type} (ts : α → String) (l : List α) (hnd : (l.map ts).Nodup) :
+    ∀ i (hi : i < l.length),
+      mapGet ((l.zipIdx).foldl (fun m (e, i) => mapSet m (ts e) i) []) (ts l[i]) = i := by
+  induction l using List.reverseRecOn with
+  | nil => intro i hi; simp at hi
+  | append_singleton l x ih =>
+    intro i hi
+    rw [List.zipIdx_append, List.foldl_append]
+    simp only [List.zipIdx_cons, List.zipIdx_nil, List.foldl_cons, List.foldl_nil, Nat.zero_add]
+    rw [mapGet_mapSet]
+    rw [List.map_append, List.nodup_append] at hnd
+    obtain ⟨hnd1, -, hne⟩ := hnd
+    rw [List.length_append, List.length_singleton] at hi
+    by_cases hil : i < l.length
+    · rw [List.getElem_append_left hil]
+      have : ts l[i] ≠ ts x :=
+        hne _ (List.mem_map.2 ⟨l[i], List.getElem_mem hil, rfl⟩) _ (by simp)
+      rw [if_neg this]
+      exact ih hnd1 i hil
+    · have : i = l.length := by omega
+      subst this
+      simp
+
+/-! ## 4. the logarithm table of a lawful record with a primitive generator -/
+
+section Log
+variable {α K : Type} [Field K] {F : FOps α}
+
+/-- `gen^i` as `Elements()` computes it: `i` in-place multiplications of `One()` by the generator -/
+abbrev pw (F : FOps α) (i : Nat) : α := (fun e => F.mul e F.gen)^[i] F.one
+
+theorem powersLoop_eq (F : FOps α) : ∀ k e,
+    powersLoop F k e = (List.range k).map fun i => (fun e => F.mul e F.gen)^[i] e := by
+  intro k
+  induction k with
+  | zero => intro e; rfl
+  | succ k ih =>
+    intro e
+    rw [powersLoop, ih, List.range_succ_eq_map, List.map_cons, List.map_map]
+    rfl
+
+/-- the model's `Elements()` is the enumeration `C03.elementsByGen` of C03/C01 -/
+theorem elements_eq (F : FOps α) : elements F = C03.elementsByGen F := by
+  unfold elements C03.elementsByGen
+  rw [powersLoop_eq]
+
+theorem invLog_eq (F : FOps α) : (newTable F).invLog = (List.range (F.card - 1)).map (pw F) := by
+  show (elements F).drop 1 = _
+  unfold elements
+  rw [powersLoop_eq]
+  rfl
+
+variable (L : Lawful F K) {p n : Nat} (hL : Assemble.FieldFacts L p n)
+include hL
+
+theorem card_sub : F.card - 1 = p ^ n - 1 := by rw [hL.card_eq]
+
+theorem pw_spec (i : Nat) : L.valid (pw F i) ∧ L.embed (pw F i) = L.embed F.gen ^ i :=
+  Assemble.iterate_mul_gen L hL.gen_valid i
+
+theorem pw_inj {i j : Nat} (hi : i < p ^ n - 1) (hj : j < p ^ n - 1) (h : pw F i = pw F j) :
+    i = j := by
+  have := congrArg L.embed h
+  rw [(pw_spec L hL i).2, (pw_spec L hL j).2] at this
+  rw [← hL.gen_order] at hi hj
+  exact pow_injOn_Iio_orderOf (Set.mem_Iio.2 hi) (Set.mem_Iio.2 hj) this
+
+/-- every nonzero valid representation is a power `gen^s`, `s < q - 1`, of the enumeration -/
+theorem exists_log {a : α} (ha : L.valid a) (h0 : L.embed a ≠ 0) :
+    ∃ s, s < p ^ n - 1 ∧ a = pw F s := by
+  have hm := (hL.elements.2.2.2 a).2 ha
+  unfold C03.elementsByGen at hm
+  rcases List.mem_cons.1 hm with rfl | hm
+  · exact absurd L.embed_zero h0
+  · obtain ⟨s, hs, rfl⟩ := List.mem_map.1 hm
+    exact ⟨s, by rw [← card_sub L hL]; exact List.mem_range.1 hs, rfl⟩
+
+theorem lookupReverse_pw {i : Nat} (hi : i < p ^ n - 1) :
+    lookupReverse F (newTable F) i = pw F i := by
+  unfold lookupReverse
+  rw [invLog_eq, card_sub L hL, List.getD_eq_getElem?_getD, List.getElem?_map,
+    List.getElem?_range hi]
+  rfl
+
+variable (hinj : ∀ a b, L.valid a → L.valid b → F.toStr a = F.toStr b → a = b)
+include hinj
+
+theorem keys_nodup : ((newTable F).invLog.map F.toStr).Nodup := by
+  rw [invLog_eq, card_sub L hL, List.map_map]
+  apply List.Nodup.map_on _ List.nodup_range
+  intro i hi j hj hij
+  rw [List.mem_range] at hi hj
+  exact pw_inj L hL hi hj (hinj _ _ (pw_spec L hL i).1 (pw_spec L hL j).1 hij)
+
+/-- `log[String(gen^i)] = i` -/
+theorem lookup_pw {i : Nat} (hi : i < p ^ n - 1) : lookup F (newTable F) (pw F i) = i := by
+  have hlen : i < (newTable F).invLog.length := by
+    rw [invLog_eq, List.length_map, List.length_range, card_sub L hL]; exact hi
+  have hget : (newTable F).invLog[i] = pw F i := by
+    have : (newTable F).invLog[i]? = some (pw F i) := by
+      rw [invLog_eq, card_sub L hL, List.getElem?_map, List.getElem?_range hi]; rfl
+    rw [List.getElem?_eq_getElem hlen] at this
+    exact Option.some.inj this
+  have := mapGet_build F.toStr (newTable F).invLog (keys_nodup L hL hinj) i hlen
+  rw [hget] at this
+  exact this
+
+omit hinj in
+theorem wsub_card (h64 : p ^ n < 2 ^ 64) : wsub F.card 1 = p ^ n - 1 := by
+  rw [hL.card_eq]
+  have := hL.two_le
+  unfold wsub
+  omega
+
+/-- **tabled `Prod` = untabled `Prod`** on valid representations (zero tests included) -/
+theorem mulWith_eq (hq : p ^ n ≤ 2 ^ 63) {b c : α} (hb : L.valid b) (hc : L.valid c) :
+    mulWith F (newTable F) b c = F.mul b c := by
+  have h2 := hL.two_le
+  have hmv := L.mul_valid b c hb hc
+  have hme := L.embed_mul b c hb hc
+  unfold mulWith
+  cases hzb : F.isZero b
+  · cases hzc : F.isZero c
+    · have hb0 := (L.isZero_false_iff b hb).1 hzb
+      have hc0 := (L.isZero_false_iff c hc).1 hzc
+      obtain ⟨s, hs, rfl⟩ := exists_log L hL hb hb0
+      obtain ⟨t, ht, rfl⟩ := exists_log L hL hc hc0
+      rw [Bool.false_or, if_neg (by simp), lookup_pw L hL hinj hs, lookup_pw L hL hinj ht,
+        wsub_card L hL (by omega)]
+      have hw : w64 (s + t) = s + t := by unfold w64; omega
+      rw [hw]
+      have hr : (s + t) % (p ^ n - 1) < p ^ n - 1 := Nat.mod_lt _ (by omega)
+      rw [lookupReverse_pw L hL hr]
+      apply L.inj _ _ (pw_spec L hL _).1 hmv
+      rw [(pw_spec L hL _).2, hme, (pw_spec L hL s).2, (pw_spec L hL t).2]
+      exact ExtField.log_mul hL.gen_order s t
+    · rw [Bool.false_or, if_pos rfl]
+      have hc0 := (L.isZero_iff c hc).1 hzc
+      exact (L.eq_zero_of_embed _ hmv (by rw [hme, hc0, mul_zero])).symm
+  · rw [Bool.true_or, if_pos rfl]
+    have hb0 := (L.isZero_iff b hb).1 hzb
+    exact (L.eq_zero_of_embed _ hmv (by rw [hme, hb0, zero_mul])).symm
+
+/-- **tabled `Inv` = untabled `Inv`** on valid representations: zero → error (`none`), one → copy,
+    otherwise `invLog[Card() - 1 - log a]` -/
+theorem invWith_eq (h64 : p ^ n < 2 ^ 64) {a : α} (ha : L.valid a) :
+    invWith F (newTable F) a = F.inv a := by
+  have h2 := hL.two_le
+  unfold invWith
+  cases hz : F.isZero a
+  · have ha0 := (L.isZero_false_iff a ha).1 hz
+    obtain ⟨i, hi, hiv, hie⟩ := L.inv_some a ha ha0
+    rw [if_neg (by simp), hi]
+    cases ho : F.isOne a
+    · rw [if_neg (by simp)]
+      obtain ⟨s, hs, rfl⟩ := exists_log L hL ha ha0
+      have hs0 : s ≠ 0 := by
+        rintro rfl
+        have : F.isOne (pw F 0) = true := (L.isOne_iff _ L.one_valid).2 L.embed_one
+        rw [this] at ho
+        cases ho
+      rw [lookup_pw L hL hinj hs, wsub_card L hL h64]
+      have hw : wsub (p ^ n - 1) s = p ^ n - 1 - s := by unfold wsub; omega
+      rw [hw, lookupReverse_pw L hL (by omega)]
+      congr 1
+      apply L.inj _ _ (pw_spec L hL _).1 hiv
+      rw [(pw_spec L hL _).2, hie, (pw_spec L hL s).2]
+      exact eq_inv_of_mul_eq_one_left (ExtField.log_inv hL.gen_order (by omega))
+    · rw [if_pos rfl]
+      congr 1
+      apply L.inj _ _ ha hiv
+      have h1 := (L.isOne_iff a ha).1 ho
+      rw [hie, h1, inv_one]
+  · rw [if_pos rfl]
+    exact (L.inv_none a ha ((L.isZero_iff a ha).1 hz)).symm
+
+end Log
 end Tables
 end Algobra
